@@ -46,3 +46,6 @@ Definition ws_case (S : swtable) (s : sent) : string := show_ostr (write_std S s
 (* model standard parser on a decorated rendering (empty store, auto-declaration) *)
 Definition sp_case (T : ptable) (O : sopts) (i : str) : string :=
   show_parse (parse_std_opts (cfg_of T true) O [] i).
+
+(* the standard writer under an option combination *)
+Definition wso_case (O : wopts) (S : swtable) (s : sent) : string := show_ostr (write_stdo O S s).
